@@ -22,6 +22,8 @@ Vals == << "null", Q(""), Q("a"), Q("a*"), Q("?"), Q("/r/"), Q("/"), Q("*"), "5"
            "{" \o Q("left") \o ":" \o Q("a") \o "," \o Q("operator") \o ":" \o Q("LITERAL") \o "}",
            "{" \o Q("left") \o ":[" \o Q("a") \o "," \o Q("b") \o "]," \o Q("operator") \o ":" \o Q("LIST") \o "}",
            "{" \o Q("left") \o ":5," \o Q("operator") \o ":" \o Q("NOT") \o "}",
+           "{" \o Q("left") \o ":[" \o Q("a*") \o "," \o Q("b") \o "]," \o Q("operator") \o ":" \o Q("LIST") \o "}",
+           "{" \o Q("left") \o ":[" \o Q("b") \o "," \o Q("/r/") \o ",7]," \o Q("operator") \o ":" \o Q("LIST") \o "}",
            "[{" \o Q("left") \o ":" \o Q("a") \o "," \o Q("operator") \o ":" \o Q("RANGE") \o "}]",
            "[{" \o Q("left") \o ":" \o Q("a") \o "," \o Q("operator") \o ":" \o Q("LIKE") \o "," \o Q("right") \o ":5}," \o Q("b") \o "]",
            "[" \o Q("a*") \o "," \o Q("/r/") \o ",{" \o Q("left") \o ":1," \o Q("operator") \o ":" \o Q("IN") \o "," \o Q("right") \o ":2}]",
